@@ -401,6 +401,22 @@ func (r *runner) checkDir(dbPath, label string, at any, wantOK bool, want []stri
 	nontrivial := len(allowed[0]) > 0 || (len(allowed) > 1 && len(allowed[1]) > 0)
 	r.res.Case(fmt.Sprintf("%s/%d/%s/%v", r.name, len(r.log), label, at), nontrivial)
 	if err != nil {
+		if os.Getenv("VERIF_C14_DEBUG") != "" {
+			fmt.Fprintf(os.Stderr, "REOPEN ERROR %v label=%s at=%v\n", err, label, at)
+			es, _ := os.ReadDir(walDirOf(dbPath))
+			for _, e := range es {
+				b, _ := os.ReadFile(filepath.Join(walDirOf(dbPath), e.Name()))
+				tail := b
+				if len(tail) > 48 {
+					tail = tail[len(tail)-48:]
+				}
+				fmt.Fprintf(os.Stderr, "  %s size=%d (mod 32768 = %d) tail=%x\n", e.Name(), len(b), len(b)%32768, tail)
+			}
+			for num, fr := range r.real.files {
+				n := len(fr.ends)
+				fmt.Fprintf(os.Stderr, "  bookkeeping log %d: %d batches, last ends %v, bytes %d, trailer %x\n", num, n-1, fr.ends[max(0, n-3):], len(fr.bytes), fr.trailer)
+			}
+		}
 		r.res.Hit("image:reopen-error")
 		sig := "reopen-error-on-crash-image"
 		if strings.Contains(err.Error(), "PANIC") {
